@@ -11,7 +11,7 @@ import (
 
 func outcomes(t *testing.T, bound int, body func(), out func() string) map[string]int {
 	t.Helper()
-	res := mc.DFS(mc.SchedConfig{Body: body, Bound: bound, Outcome: func(x *rt.Exec) string {
+	res := mc.DFS(mc.SchedConfig{NoStateCache: true, Body: body, Bound: bound, Outcome: func(x *rt.Exec) string {
 		switch {
 		case x.Deadlock:
 			return "deadlock"
